@@ -53,8 +53,16 @@ def r1_domain(run, w, fn):
   node = chains[0]
   remaining = IntSet.all()
   while True:
-    cs = cond_set(node.test, idvar).intersect(remaining)
     kind = _branch_kind(node.body, filled, ivar, idvar)
+    try:
+      cs = cond_set(node.test, idvar).intersect(remaining)
+    except AnalysisError:
+      # A condition outside the interval domain (e.g. membership in a run-time set). For a
+      # rejecting branch it is sound to ignore it: the accepted set computed without it is a
+      # superset of the real one. A replacing branch with such a condition cannot be decided.
+      if kind[0] != "raise":
+        raise
+      cs = IntSet()
     if kind[0] == "raise":
       accepted = accepted.minus(cs)
     elif kind[0] == "replace":
@@ -69,7 +77,12 @@ def r1_domain(run, w, fn):
       node = node.orelse[0]
       continue
     if node.orelse:
-      raise AnalysisError("fill loop has a final else branch (not modelled)")
+      # a final else is the accepting path; it must leave the id as it is
+      for st in node.orelse:
+        for x in ast.walk(st):
+          if isinstance(x, ast.Assign) and any(text(t) in (idvar, "%s[%s]" % (filled, ivar))
+                                               for t in x.targets):
+            raise AnalysisError("fill loop's final else rewrites the id (not modelled)")
     break
   want = IntSet([(1, MAX_ID)])
   run.ob(R1, fn.qualname, "accepted explicit ids = %r" % accepted,
@@ -247,6 +260,21 @@ VARIANTS = [
    "    if len(set(row_ids)) != len(row_ids):", "C27-R2"),
   ("return-input-ids", U, "    return filled_row_ids\n", "    return row_ids\n", "C27-R2"),
   ("counter-not-raised", U, "      next_row_id = max(next_row_id, row_id) + 1", "      next_row_id = next_row_id + 1", "C27-R4"),
+  ("seen-set-only-explicit-ids", U, """      elif row_id > 1000000:
+        raise ValueError("Row ID too high")
+      next_row_id = max(next_row_id, row_id) + 1
+
+    # Each requested row must become a distinct row.
+    if len(set(filled_row_ids)) != len(filled_row_ids):
+      raise ValueError("Row IDs must be unique")
+""", """      elif row_id > 1000000:
+        raise ValueError("Row ID too high")
+      elif row_id in explicit_ids:
+        raise ValueError("Row IDs must be unique")
+      else:
+        explicit_ids.add(row_id)
+      next_row_id = max(next_row_id, row_id) + 1
+""", "C27-R2"),
   ("docaction-no-assert", "sandbox/grist/docactions.py",
    """    for row_id in row_ids:
       assert row_id not in table.row_ids, \\
